@@ -67,6 +67,16 @@ def worker(seed, tier, chunk, out_path):
         res = span * 111000.0 / 8
         th, tw = rng.randrange(2, 8), rng.randrange(2, 8)
         tgt, tkind = kc.area_at(rng, lon0, lat0, tw, th, res)
+        if rng.random() < 0.15:
+            # a target with invalid locations: geostationary full disk (its corner pixels look into space), coarse enough that with
+            # small chunk sizes whole target blocks have no valid location at all
+            lat0 = max(-40.0, min(40.0, lat0))
+            th, tw = rng.randrange(6, 10), rng.randrange(6, 10)
+            tgt = kc.mk_area({"proj": "geos", "h": 35785831.0, "lon_0": lon0, "a": 6378169.0, "b": 6356583.8}, tw, th,
+                             (-5570000.0, -5570000.0, 5570000.0, 5570000.0))
+            tkind = "geos_disk"
+            span = 60.0
+            res = 11140000.0 / max(th, tw)
         src_is_area = rng.random() < 0.3
         if src_is_area:
             sh, sw = rng.randrange(2, 8), rng.randrange(2, 8)
